@@ -8,6 +8,7 @@ import (
 	"fmt"
 	"os"
 	"sort"
+	"strings"
 	"sync"
 	"testing"
 	"time"
@@ -368,6 +369,14 @@ func Exec(t *testing.T, sc Scenario, r *evid.Run) *evid.Failure {
 		}
 		// the call failed: was it entitled to? Conservative "got back before exhaustion":
 		if resp == nil {
+			continue
+		}
+		if wrapped(sc) && resp.t > o.at && strings.Contains(o.err.Error(), "connection was closed") {
+			// After a wrap-around a confirmable message the library originates itself (a response to a
+			// non-confirmable message of the peer) may draw the ID of a pending request; the library
+			// refuses it, and a connection that cannot write a response closes itself - a policy of
+			// its own, as with a failed write of an acknowledgement. The call ended with the
+			// connection, before its response was delivered: nothing "got back".
 			continue
 		}
 		if wrapped(sc) {
